@@ -248,3 +248,127 @@ mfr_seek = Contract('MultiFileReader.seek', setup=mfr_setup, requires=lambda c: 
 CONTRACTS['MultiFileReader.seek'] = mfr_seek
 FUNCS.append('MultiFileReader.seek')
 CONSTS['os'] = SFunc('module', 'os')
+
+
+# ---- MultiFileReader.read(amt), amt >= 1: the next bytes of the concatenation, across member boundaries ----------------------
+# tl(i) = what is left to read in members i, i+1, ... at entry (recursive definition, given as a quantified defining axiom):
+#     tl(n) = '',   tl(i) = content_i[pos_i:] ++ tl(i+1)  for 0 <= i < n
+# Postcondition: returned ++ (what is left afterwards, from the new index on) == tl(index at entry); no more than amt bytes;
+# fewer than amt only when every member is exhausted.  `parts` is a concatenation-tracked list (ghost field `cat`).
+Parts = HeapClass('PartList', 'list', e=STR)
+Parts.fields['cat'] = STR
+ALL.append(Parts)
+tl = z3.Function('tl', z3.IntSort(), z3.StringSort())
+
+
+def ext_join(eng, args, kwargs, st, node):
+    sep, lst = args[0], args[1]
+    if not (isinstance(sep, SStr) and z3.is_string_value(z3.simplify(sep.t)) and z3.simplify(sep.t).as_string() == ''
+            and isinstance(lst, SRef) and 'cat' in lst.cls.fields):
+        raise Exception('join')
+    return [(SStr(eng.hload(st, lst, 'cat')), st)]
+
+
+EXTERNALS['strmethod:join'] = ext_join
+
+
+def mfr_read_setup(eng, st, variant=None):
+    files = SSeq(REF(F), z3.Const('fileobjs', IntArr), z3.Int('n_files'))
+    eng.field_consts = {('MultiFileReader', '_fileobjs'): files, ('MultiFileReader', '_joiner'): SStr(E)}
+    return dict(self=SRef(MFR, z3.Int('self')), amt=SInt(z3.Int('arg_amt')))
+
+
+def rest_of(c, j, st=None):
+    """what is left to read in member j"""
+    st = st or c.st
+    f = z3.Select(mfr_files(c).arr, j)
+    content, pos = z3.Select(c.arr(F, 'content', st), f), z3.Select(c.arr(F, 'pos', st), f)
+    return z3.SubString(content, pos, z3.Length(content) - pos)
+
+
+def left_from(c, idx, st=None):
+    """what is left to read from member idx on, in terms of the current position of member idx and the entry-state tails"""
+    n = mfr_files(c).n
+    return z3.If(idx < n, z3.Concat(rest_of(c, idx, st), tl(idx + 1)), E)
+
+
+def mfr_members_ok(c, st=None):
+    st = st or c.st
+    fs = mfr_files(c)
+    j, k = z3.Int('j'), z3.Int('k')
+    fj = z3.Select(fs.arr, j)
+    pos, content = z3.Select(c.arr(F, 'pos', st), fj), z3.Select(c.arr(F, 'content', st), fj)
+    return [('member files are distinct objects', z3.ForAll([j, k], z3.Implies(z3.And(0 <= j, j < k, k < fs.n),
+                                                                                z3.Select(fs.arr, j) != z3.Select(fs.arr, k)))),
+            ('member positions are inside their contents', z3.ForAll([j], z3.Implies(z3.And(0 <= j, j < fs.n),
+                                                                                      z3.And(pos >= 0, pos <= z3.Length(content)))))]
+
+
+def mfr_exhausted_before(c, idx, st=None):
+    st = st or c.st
+    fs = mfr_files(c)
+    j = z3.Int('j')
+    fj = z3.Select(fs.arr, j)
+    return z3.ForAll([j], z3.Implies(z3.And(0 <= j, j < idx),
+                                     z3.Select(c.arr(F, 'pos', st), fj) == z3.Length(z3.Select(c.arr(F, 'content', st), fj))))
+
+
+def mfr_read_req(c):
+    s = c.sv('self')
+    fs = mfr_files(c)
+    idx = c.f(s, '_index')
+    return [('amt >= 1', c.a('amt') >= 1), ('index within 0..n', z3.And(0 <= idx, idx <= fs.n, fs.n >= 0)),
+            ('objects', z3.And(s.t >= 1, s.t < c.st.alloc))] + mfr_members_ok(c) + [
+            ('members before the index are exhausted', mfr_exhausted_before(c, idx))]
+
+
+def mfr_tl_def(c):
+    fs = mfr_files(c)
+    i = z3.Int('i')
+    return [('tl(n) = empty', tl(fs.n) == E),
+            ('tl(i) = rest of member i ++ tl(i+1)', z3.ForAll([i], z3.Implies(z3.And(0 <= i, i < fs.n),
+                                                                            tl(i) == z3.Concat(rest_of(c, i, c.old), tl(i + 1)))))]
+
+
+def mfr_read_inv(c):
+    s = c.sv('self')
+    fs = mfr_files(c)
+    idx, idx0 = c.f(s, '_index'), c.f(s, '_index', c.old)
+    parts = c.Lsv('parts')
+    cat = c.f(parts, 'cat')
+    j = z3.Int('j')
+    fj = z3.Select(fs.arr, j)
+    e = c.x['loop_entry']
+    return [('parts is the list allocated by this call', z3.And(parts.t >= z3.Int('alloc0'), parts.t == e.locals['parts'].t, c.f(parts, 'len') >= 0)),
+            ('index within 0..n', z3.And(idx0 <= idx, idx <= fs.n)),
+            ('conservation: read so far ++ left from the index on == left at entry', z3.Concat(cat, left_from(c, idx)) == tl(idx0)),
+            ('amt is what is still wanted', z3.And(c.L('amt') == c.a('amt') - z3.Length(cat), c.L('amt') >= 0)),
+            ('members after the index are untouched', z3.ForAll([j], z3.Implies(z3.And(idx < j, j < fs.n),
+                                                                                 z3.Select(c.arr(F, 'pos'), fj) == z3.Select(c.oarr(F, 'pos'), fj)))),
+            ('contents untouched', c.arr(F, 'content') == c.oarr(F, 'content')),
+            ('members before the index are exhausted', mfr_exhausted_before(c, idx)),
+            ('the current member position is inside its content',
+             z3.Implies(idx < fs.n, z3.And(z3.Select(c.arr(F, 'pos'), z3.Select(fs.arr, idx)) >= 0,
+                                           z3.Select(c.arr(F, 'pos'), z3.Select(fs.arr, idx)) <= z3.Length(z3.Select(c.arr(F, 'content'), z3.Select(fs.arr, idx))))))]
+
+
+def mfr_read_ensures(c):
+    s = c.sv('self')
+    fs = mfr_files(c)
+    idx, idx0 = c.f(s, '_index'), c.f(s, '_index', c.old)
+    return [('conservation: returned ++ left from the new index on == left at entry, in order',
+             z3.Concat(c.r(), left_from(c, idx)) == tl(idx0)),
+            ('no more than amt bytes', z3.Length(c.r()) <= c.a('amt')),
+            ('fewer than amt only when every member is exhausted', z3.Implies(z3.Length(c.r()) < c.a('amt'), idx == fs.n)),
+            ('index within 0..n, contents untouched', z3.And(idx0 <= idx, idx <= fs.n, c.arr(F, 'content') == c.oarr(F, 'content'))),
+            ('members before the index are exhausted', mfr_exhausted_before(c, idx))]
+
+
+mfr_read = Contract('MultiFileReader.read', setup=mfr_read_setup, requires=mfr_read_req, ensures=mfr_read_ensures,
+                    modifies=lambda c: [('FileObj', 'pos'), ('MultiFileReader', '_index'), ('PartList', 'elems'), ('PartList', 'len'),
+                                        ('PartList', 'cat')],
+                    loops={0: Loop(mfr_read_inv, heap=[('FileObj', 'pos'), ('MultiFileReader', '_index'), ('PartList', 'elems'),
+                                                       ('PartList', 'len'), ('PartList', 'cat')])},
+                    local_types=dict(parts=REF(Parts)), facts=mfr_tl_def)
+CONTRACTS['MultiFileReader.read'] = mfr_read
+FUNCS.append('MultiFileReader.read')
